@@ -68,19 +68,20 @@ impl<T: Clone, N: ArrayLength> Clone for GenericArrayIter<T, N> {
         // This places all cloned elements at the start of the new array iterator,
         // not at their original indices.
 
-        let mut array = unsafe { ptr::read(&self.array) };
-        let mut index_back = 0;
-
-        for (dst, src) in array.as_mut_slice().iter_mut().zip(self.as_slice()) {
-            unsafe { ptr::write(dst, src.clone()) };
-            index_back += 1;
-        }
-
-        GenericArrayIter {
-            array,
+        // The new iterator owns the clones made so far (`index..index_back`), so that they
+        // are dropped if a later `clone` call panics.
+        let mut iter = GenericArrayIter {
+            array: unsafe { ptr::read(&self.array) },
             index: 0,
-            index_back,
+            index_back: 0,
+        };
+
+        for (dst, src) in iter.array.as_mut_slice().iter_mut().zip(self.as_slice()) {
+            unsafe { ptr::write(dst, src.clone()) };
+            iter.index_back += 1;
         }
+
+        iter
     }
 }
 
